@@ -357,7 +357,7 @@ func (fc *FnCtx) trModel(st *State, call *ast.CallExpr, fn *types.Func, recvExpr
 var _ = fmt.Sprintf
 var _ = strings.TrimSpace
 
-// ghost file-system write counter (DESIGN 2.7)
+// ghost file-system write counter (DESIGN 2.4)
 func (fc *FnCtx) fsWrites(st *State) Val {
 	return fc.readKey(st, "ghost.fsWrites", types.Typ[types.Int])
 }
